@@ -3,13 +3,15 @@
 removed afterwards).  Rewrites seeded/<id>/meta.json (confirmed_by) and seeded/MATRIX.md.
 
   tools/seed_matrix.py [ids...]      default: all directories under /verif/seeded
+  tools/seed_matrix.py --table-only  rewrite MATRIX.md from the meta.json files as they are
 """
 import json, os, subprocess, sys
 from concurrent.futures import ThreadPoolExecutor
 
 VERIF = os.path.dirname(os.path.dirname(os.path.abspath(__file__)))
 SEEDED = os.path.join(VERIF, "seeded")
-ids = sys.argv[1:] or sorted(d for d in os.listdir(SEEDED) if os.path.isdir(os.path.join(SEEDED, d)))
+TABLE_ONLY = "--table-only" in sys.argv
+ids = [a for a in sys.argv[1:] if not a.startswith("--")] or sorted(d for d in os.listdir(SEEDED) if os.path.isdir(os.path.join(SEEDED, d)))
 
 
 def one(d):
@@ -20,8 +22,11 @@ def one(d):
         return d, {"error": (p.stdout + p.stderr)[-400:]}
 
 
-with ThreadPoolExecutor(max_workers=3) as ex:
-    results = dict(ex.map(one, ids))
+if TABLE_ONLY:
+    results = {}
+else:
+    with ThreadPoolExecutor(max_workers=3) as ex:
+        results = dict(ex.map(one, ids))
 rows = []
 for d in sorted(os.listdir(SEEDED)):
     mp = os.path.join(SEEDED, d, "meta.json")
